@@ -41,6 +41,15 @@ def exhaustive(quick):
                     [("mark", 20)] + [x for act in b for x in (act, ("mark", 21 + b.index(act)))],
                     [("mark", 30), ("wait", 0), ("mark", 31), ("end", 5)]]
             cases.append(["reset", schedgen.script_line(prog), "call m t0", "step 0", "step 125", "step 1000", "thread-result"])
+    # timeouts: a worker mixing waittill_timeout / waittill / waits, a notifier called between frames
+    wacts = [("waittill_timeout", 1, 1, 250), ("waittill_timeout", 1, 2, 125), ("waittill", 1, [2]), ("waittill", 1, [1]), ("wait", 0), ("wait", 125)]
+    for a in itertools.product(wacts, repeat=3):
+        body = [("mark", 10)]
+        for k, act in enumerate(a):
+            body += [act, ("mark", 11 + k)]
+        prog = [[("spawn", 1), ("mark", 1)], body, [("mark", 20), ("notify", 1, 1), ("mark", 21)], [("mark", 30), ("notify", 1, 2), ("mark", 31)]]
+        for sched in (["call m t2", "step 125", "step 125", "step 250"], ["step 125", "call m t2", "step 125", "call m t3", "step 250"], ["step 300", "call m t3", "step 300"]):
+            cases.append(["reset", schedgen.script_line(prog), "call m t0", "call m t1", "step 0"] + sched + ["step 1000", "step 1000"])
     return cases
 
 
